@@ -322,7 +322,7 @@ PROPS = {
         "assumptions": ["loader is a function of the URL during one call", "documents are in normal form (reference objects carry only $ref)"],
     },
     "C18": {
-        "extra_oracles": ["C18null"],
+        "extra_oracles": ["C18null", "C18scoped"],
         "props": "theories/Props/C18.v", "gens": [("tables", "Codec/Gen_Tables.v")], "cluster": "expand", "gen": "expand", "ops": ["expand_spec"],
         "n": {"quick": 120, "thorough": 1500}, "oracle_n": {"quick": 150, "thorough": 3000},
         "rule": 'correspondence: ExpandSpec on generated multi-document reference graphs (1-5 documents in the same/sub/parent directories and an http host; local, sibling, ./ ../, root-relative and absolute refs; nested-pointer and whole-document targets; escaped names; refs at every sub-schema keyword; parameters/responses/path items by $ref; cycles of every small topology; fault injection; all option combinations) + a bounded-exhaustive sample of graphs over <=3 definitions x <=2 documents; oracle: nil / fresh / pre-loaded (every subset) / reused caches give identical outputs; loader log without duplicates; pre-loaded documents never requested',
